@@ -38,6 +38,21 @@ GEN_TAIL = "CHECK_DEADLOCK FALSE\n"
 TRACE_TAIL = "CHECK_DEADLOCK FALSE\nPOSTCONDITION Post\n"
 ALL_RCPTS = ("a1", "a2", "cv", "nl", "idn")
 ALL_DEVS = ("RcptConverted", "RcptNotCleared", "LMTPWireKey")
+PIPE_DEVS = ("RewriteCollision",)
+PIPE_KEEP = {"Cfg", "Txn", "Ret", "Statuses", "End"}
+
+PCFG = """SPECIFICATION %(spec)s
+CONSTANTS
+  MaxList = %(maxlist)d
+  StSet = {%(st)s}
+  Devs = {%(devs)s}
+  Gen = %(gen)s
+%(tail)s
+"""
+
+
+def pcfg(spec="Spec", maxlist=2, st=("ok", "temp", "perm"), devs=(), gen=False, tail=MC_TAIL):
+    return PCFG % dict(spec=spec, maxlist=maxlist, st=q(st), devs=q(devs), gen="TRUE" if gen else "FALSE", tail=tail)
 
 
 def q(xs):
@@ -229,6 +244,56 @@ def run_targets(ctx, replay_obj, binary, known, thorough, skip_mc):
     return len(behs), sum(1 for b in behs if nontrivial(b)), ok, drift, preds
 
 
+def run_pipeline(ctx, replay_obj, binary, known, thorough, skip_mc):
+    """Pipeline half: PipeStatus.tla, real msgpipeline + replace_rcpt + scripted partial target."""
+    open_devs = sorted({d for f in known for d in devs_of(f) if d in PIPE_DEVS})
+    if not replay_obj and not skip_mc:
+        r = ctx.tlc_expect_ok("PipeStatus", None, name="pipe-mc", workers=6, timeout=1800,
+                              cfg_text=pcfg(maxlist=3 if thorough else 2))
+        ctx.log("TLC exhaustive pipe-mc: %d distinct states, %d transitions, depth %d, %.1fs" % (
+            r["distinct"], r["generated"], r["depth"], r["wall"]))
+        ctx.cov["states"] = ctx.cov.get("states", 0) + r["distinct"]
+        ctx.cov["transitions"] = ctx.cov.get("transitions", 0) + r["generated"]
+        ctx.cov["states_pipeline"] = r["distinct"]
+        ra = ctx.tlc("PipeStatus", None, name="pipe-asis", workers=2, timeout=600,
+                     cfg_text=pcfg(st=("ok", "temp"), devs=PIPE_DEVS, tail="VIEW View\nINVARIANTS NoViolation\n"))
+        if ra["invariant"] != "NoViolation":
+            raise vlib.Infra("as-is pipeline model (RewriteCollision) no longer violates NoViolation (%s %s)" % (
+                ra["invariant"], ra["error"]))
+    if replay_obj:
+        behs = [replay_obj["behaviour"]]
+        behs[0]["id"] = 1
+    else:
+        # complete enumeration of rewrite rules x recipient lists x target results (2 result classes)
+        g = ctx.tlc("PipeStatus", None, name="pipe-gen", workers=4, timeout=1800,
+                    cfg_text=pcfg(st=("ok", "temp"), gen=True, tail=GEN_TAIL))
+        if not g["ok"]:
+            raise vlib.Infra("pipeline behaviour generation failed: %s %s" % (g["invariant"], g["error"]))
+        behs = [{"cfg": v["cfg"], "txn": v["txn"]} for tag, v in g["printed"] if tag == "BEH"]
+        ctx.cov["exhaustive_pipe-gen"] = len(behs)
+        if not thorough:
+            # keep every rewrite-rule pair, sample the target results
+            by_rule = {}
+            for b in behs:
+                by_rule.setdefault(json.dumps([b["cfg"], b["txn"]["rcpts"]], sort_keys=True), []).append(b)
+            behs = [ctx.rng.choice(v) for _, v in sorted(by_rule.items())]
+        for i, b in enumerate(behs):
+            b["id"] = i + 1
+    ctx.log("%d pipeline behaviours to replay" % len(behs))
+    events = ctx.run_shards(binary, behs, test="TestReplayPipe", shards=min(vlib.NCPU, 8), name="replay-pipe")
+    by_id = {b["id"]: b for b in behs}
+    verdicts, by_t = ctx.validate("PipeStatusTrace", None, events, keep=PIPE_KEEP, name="PipeStatusTrace",
+                                  cfg_text=pcfg(spec="TSpec", maxlist=3, devs=open_devs, tail=TRACE_TAIL))
+    ok, drift, preds = classify(ctx, "C09", verdicts, by_t, by_id, known, open_devs, {},
+                                "pipeline per-recipient results violate %s (transaction %s)")
+    for v in ctx.violations:
+        pass
+    for b in behs[:1]:
+        ctx.cov["samples"].append({"behaviour": b, "trace": [e for e in by_t.get(b["id"], []) if e["e"] in PIPE_KEEP]})
+    nt = sum(1 for b in behs if any(v != [k] for k, v in b["cfg"]["rw"].items()))
+    return len(behs), nt, ok, drift, preds
+
+
 def run(ctx, replay):
     thorough = ctx.tier == "thorough"
     known = open_findings()
@@ -239,8 +304,13 @@ def run(ctx, replay):
     binary = ctx.build_harness("remotecheck")
     n = nt = ok = drift = 0
     preds = {}
-    if not robj or robj.get("part", "targets") == "targets":
+    if not robj or "txns" in robj["behaviour"]:
         n, nt, ok, drift, preds = run_targets(ctx, robj, binary, known, thorough, skip_mc)
+    if not robj or "txn" in robj["behaviour"]:
+        n2, nt2, ok2, drift2, preds2 = run_pipeline(ctx, robj, binary, known, thorough, skip_mc)
+        n, nt, ok, drift = n + n2, nt + nt2, ok + ok2, drift + drift2
+        for k2, v2 in preds2.items():
+            preds[k2] = preds.get(k2, 0) + v2
     ctx.cov["traces_validated_against_impl"] = ok
     ctx.cov["drift_traces"] = drift
     ctx.cov["evaluations"] = n
@@ -248,12 +318,16 @@ def run(ctx, replay):
     ctx.cov["violated_predicates"] = preds
     ctx.cov["rule"] = ("behaviours = (next-hop kind, SMTPUTF8 on/off, history of transactions with recipient list and "
                        "fault plan) of RcptStatus.tla printed by TLC: exhaustive over small sub-spaces, -simulate over the "
-                       "full space, de-duplicated; non-trivial = a scripted failure, a duplicate or a non-plain address")
+                       "full space, de-duplicated; non-trivial = a scripted failure, a duplicate or a non-plain address; "
+                       "pipeline: every pair of rewrite rules x recipient list of PipeStatus.tla (target results sampled "
+                       "in quick, complete in thorough), non-trivial = a non-identity rule")
     ctx.cov["exhaustive"] = False
     ctx.assumptions += [
         "next hops are scripted raw SMTP/LMTP servers on loopback TCP following a fault plan per transaction",
         "addresses are five fixed strings (ASCII x2, local-part case variant, non-ASCII local part, IDN domain)",
         "duplicates: an address accepted n times may be reported 1..n times (weaker reading)",
+        "pipeline: real msgpipeline.New + replace_rcpt over a static table, one scripted partial target that accepts "
+        "every recipient; a supplied address rewritten to n addresses may be reported 1..n times",
         "a harness-side time-out is exit 2, never a violation",
         "TLC 1.8.0, CommunityModules Json reader",
     ]
@@ -262,7 +336,7 @@ def run(ctx, replay):
 META = {
     "engine": "remotecheck",
     "level": "model_checking",
-    "technique": "TLA+ spec RcptStatus.tla model-checked by TLC; TLC-generated behaviours replayed on the real "
+    "technique": "TLA+ specs RcptStatus.tla and PipeStatus.tla model-checked by TLC; TLC-generated behaviours replayed on the real "
                  "remote.Target / target.lmtp against scripted SMTP/LMTP next hops with a recording StatusCollector; "
                  "recorded traces validated against RcptStatusTrace.tla (predicates in RcptStatusObs.tla)",
     "text": "TLC visits every recipient list (<=3, over ASCII, case variant, non-ASCII local part, IDN domain, "
@@ -270,7 +344,10 @@ META = {
             "per-recipient LMTP replies and histories of up to 4 transactions over the per-domain cached connections, "
             "and checks keys(statuses) = accepted recipients as given (none for another address, none missing, not more "
             "often than accepted, each with the next hop's answer for that recipient) in every state; the same "
-            "predicates are evaluated by TLC over traces recorded from the real targets.",
+            "predicates are evaluated by TLC over traces recorded from the real targets. Pipeline: every pair of "
+            "rewrite rules (identity, 1->1, 1->2 over four effective addresses, incl. a target also supplied directly) x "
+            "recipient list x target results of PipeStatus.tla, replayed on the real msgpipeline with the real "
+            "replace_rcpt modifier and a scripted partial target.",
     "note": "Scripted next hops on loopback TCP; the StatusCollector is a recording stub; trusted: TLC, the harness, "
             "Go toolchain.",
     "design_ref": "DESIGN.md section 5 C09",
